@@ -12,6 +12,7 @@ import (
 	"reflect"
 	"sort"
 	"testing"
+	"time"
 
 	"github.com/lugu/qiloop/meta/signature"
 	"github.com/lugu/qiloop/type/encoding"
@@ -25,7 +26,10 @@ import (
 
 const prop = "C03"
 
-func TestMain(m *testing.M) { vt.Main(m) }
+func TestMain(m *testing.M) {
+	vt.Watchdog = 30 * time.Second
+	vt.Main(m)
+}
 
 // Case is a type (signature) and a value of it (reference encoding).
 type Case struct {
